@@ -325,3 +325,59 @@ def rule_f5(repo, res):
                         f"{mname}.{fname} hands `{norm(a, 60)}` to decode_by_char and it is not a byte-level stream the rule knows"
                     res.add(Finding("F5", f"{mname}.{fname}", f"`{norm(call, 70)}`", msg, where=f"pvl/{mname}.py:{call.lineno}"))
     res.floor("calls of decode_by_char", n, 2)
+
+
+def rule_f2c(repo, res):
+    """F2c: decode_by_char never lets a UnicodeError out: it is the fall-back for files whose tail cannot be decoded, and
+    returns what could be decoded.  Every call that can raise one -- `<decoder>.decode(...)`, `<bytes>.decode(...)`,
+    `str(<bytes>, ...)` -- lies in the *body* of a try statement that has a handler for UnicodeError / UnicodeDecodeError
+    (or a broader one); the else / finally clauses and the code after the try are not covered by that handler (a final
+    flush `decode(b"", final=True)` placed there raises "unexpected end of data" for a text cut inside a character)."""
+    fn = repo.full_function("__init__", "decode_by_char")
+    calls = [n for n in ast.walk(fn) if isinstance(n, ast.Call) and isinstance(n.func, ast.Attribute) and n.func.attr == "decode"]
+    res.floor("decode calls in decode_by_char", len(calls), 1)
+    for c in calls:
+        covered = False
+        x = c
+        while x is not None and x is not fn:
+            p = getattr(x, "_parent", None)
+            if isinstance(p, ast.Try) and x in p.body and any(
+                    h.type is None or any(k in norm(h.type) for k in ("UnicodeError", "UnicodeDecodeError", "ValueError", "Exception"))
+                    for h in p.handlers):
+                covered = True
+            x = p
+        res.oblige("F2c", f"decode_by_char `{norm(c, 50)}` lies in a try body with a handler for UnicodeError", ok=covered)
+        if not covered:
+            res.add(Finding("F2c", "__init__.decode_by_char", f"`{norm(c, 50)}` outside the guarded body",
+                            f"decode_by_char calls `{norm(c, 60)}` where no handler for UnicodeError covers it (an else / finally clause, "
+                            "or after the try): for a file that ends inside a multi-byte character the fall-back raises "
+                            "UnicodeDecodeError instead of returning the decodable text, and pvl_validate / pvl_translate die on a file "
+                            "the library's own prefix decoding would load", where=f"pvl/__init__.py:{c.lineno}"))
+
+
+def rule_re_flag_pos(repo, res):
+    """RE-FLAG-POS: a regex flag is never passed in the position of a count: the fourth positional argument of
+    re.sub / re.subn is `count` and the third of re.split is `maxsplit`; `re.sub(p, r, s, re.MULTILINE)` silently limits
+    the substitution to 8 occurrences (the flag's integer value) instead of changing how the pattern matches."""
+    n = 0
+    FLAGS = {"re.MULTILINE", "re.M", "re.IGNORECASE", "re.I", "re.DOTALL", "re.S", "re.ASCII", "re.A", "re.VERBOSE", "re.X", "re.UNICODE", "re.U", "re.LOCALE", "re.L"}
+
+    def is_flag(e):
+        if norm(e) in FLAGS:
+            return True
+        if isinstance(e, ast.BinOp) and isinstance(e.op, ast.BitOr):
+            return is_flag(e.left) or is_flag(e.right)
+        return False
+    for mname, mod in repo.modules.items():
+        for call in [x for x in ast.walk(mod.tree) if isinstance(x, ast.Call) and norm(x.func) in ("re.sub", "re.subn", "re.split")]:
+            n += 1
+            pos = 3 if norm(call.func) in ("re.sub", "re.subn") else 2
+            bad = len(call.args) > pos and is_flag(call.args[pos])
+            res.oblige("RE-FLAG-POS", f"{mname}: `{norm(call, 60)}` passes no flag in the count / maxsplit position", ok=not bad)
+            if bad:
+                res.add(Finding("RE-FLAG-POS", f"{mname}", f"`{norm(call, 60)}`",
+                                f"pvl/{mname}.py calls `{norm(call, 80)}`: `{norm(call.args[pos])}` is taken for the "
+                                f"{'count' if pos == 3 else 'maxsplit'} argument, so only that many occurrences are handled and the rest of "
+                                "the text is left as it was (dash continuations beyond the eighth are not joined)",
+                                where=f"pvl/{mname}.py:{call.lineno}"))
+    res.floor("re.sub / re.subn / re.split calls in the package", n, 2)
